@@ -156,6 +156,10 @@ def check_seal_open(rep, facts, rule='R01.3'):
         buf = si.args[3]
         incs = sorted({c[4][3] for bi, t, c2 in a.calls(lambda c: c.get('local') and c['def_kind'] == 'Fn')
                        for c in [a.val_call(t, a.term_point(bi))] if c[0] == 'call' and c[4] and c[4][3] and len(c[2]) == 1 and pp(c[2][0]) == '&*p1.0.seq'})
+        # the increment written out in place (self.seq.0.checked_add(1)) counts as the one shared increment
+        from .c04 import _is_seq_checked_add
+        if not incs and any(_is_seq_checked_add(a.val_call(t, a.term_point(bi))) for bi, t, c2 in a.calls(lambda c: c['name'] == 'checked_add')):
+            incs = ['<inline u64::checked_add(self.seq.0, 1)>']
         return {'object': pp(si.args[0]), 'nonce': helper, 'aad_is_param': aad[0] == 'param' and a.body.local_ty(aad[1]) == '&[u8]',
                 'buffer_is_param': buf[0] == 'param' and a.body.local_ty(buf[1]) == '&mut [u8]', 'increment': incs}
     ws, wo = wiring(s), wiring(o)
